@@ -31,7 +31,7 @@ from harness.props.c15 import (FNAME, FORMATS, K_ENTITY, K_JUNK, K_PLACEHOLDER, 
                                render_comment, render_entity,
                                entity_facts, normalise)
 
-FACTS = ("tables", "c15")
+FACTS = ("tables", "parser", "c02", "c15")
 
 RULE = ("seeded triples per format: reference = rendered record list (values marked EN_), old "
         "localization = a subset of the reference keys re-valued, in reference or shuffled order, "
